@@ -315,6 +315,11 @@ func (db *Backend) GetObject(bucketName, objectName string, rangeRequest *gofake
 			return gofakes3.KeyNotFound(objectName)
 		}
 
+		// bson.Unmarshal does not copy []byte fields, and v points into
+		// bolt's memory map, which is only valid until the transaction ends:
+		// Contents and Hash must not alias it, the object outlives the View.
+		v = append([]byte(nil), v...)
+
 		if err := bson.Unmarshal(v, &t); err != nil {
 			return fmt.Errorf("gofakes3: could not unmarshal object at %q/%q: %v", bucketName, objectName, err)
 		}
